@@ -26,6 +26,11 @@ type Opts struct {
 	CRLF    bool `json:"use_crlf,omitempty"`
 	Reuse   bool `json:"reuse_record,omitempty"`
 	WComma  bool `json:"writer_comma_semicolon,omitempty"` // separator ';' on the writing side
+	// Order is not an option: it is the permutation (index into optionOrders) in which the options
+	// that express the set (reader options, writer options, skipped lines) are LISTED in the call
+	// CSVConsumer(opts...) / CSVProducer(opts...). The property speaks of option sets: the reference
+	// never looks at it.
+	Order int `json:"option_list_order,omitempty"`
 }
 
 // Case is one replayable case.
